@@ -86,14 +86,15 @@ CLAIM = dict(
          "in load_bytecode. Tie: 15 OSError classes/errnos (+KeyboardInterrupt) injected into get_template at every file operation of "
          "the cache (open, read, temporary creation, each write, close, replace, remove) with the entry absent/old, os.remove in clear(), "
          "and real obstacles through the public API (directory / dangling symlink / symlink loop at the entry's path, cache directory "
-         "missing or a regular file; read-only directory and unreadable entry when not root), judged by the Spec: an OSError of the "
-         "cache is never an error of get_template and the current source is rendered.",
+         "missing or a regular file; read-only directory and unreadable entry when not root), compared with the transcription (model over the handlers read from the source; a difference "
+         "is reported as C27:fs-fault:model-drift, correspondence only), and judged by the property only in what follows the fault: the "
+         "next fault-free load renders the current source and no temporary stays where the model removes it.",
     note="Trusted: Lean kernel; translator; hand model tied by correspondence; decoder contracts, SHA-1 injectivity, rename "
          "atomicity assumed. Outside the decoder contract (not judged): MemoryError / SystemError from pickle or marshal on damaged "
          "bytes, and CPython crashing or hanging in marshal.load. Freshness across different configurations is false (F10a, known "
-         "finding). F10b (unguarded pickle.load) is fixed in b3991f5; every truncation offset and byte damage is still probed. OSErrors from open (other than the three listed classes), from reading an entry, from creating/writing/closing the temporary "
-         "leave get_template on the unchanged tree (known findings C27:fs-error:*; for the write side by design per the "
-         "dump_bytecode docstring); the rename is covered for every OSError. Exceptions injected into the write path propagate by design (docstring of "
+         "finding). F10b (unguarded pickle.load) is fixed in b3991f5; every truncation offset and byte damage is still probed. Outside the property: what get_template does when the file system answers a cache operation with an OSError (open other "
+         "than the three listed classes, read, creating/writing/closing the temporary propagate; dump_bytecode is documented to raise) - "
+         "transcribed and pinned, not judged. Exceptions injected into the write path propagate by design (docstring of "
          "BytecodeCache.dump_bytecode) and are compared with the model, not judged.",
     design_ref="§5 C27",
 )
@@ -711,13 +712,6 @@ class Instrumented:
         del self.mod.open
 
 
-PER_CLASS_SITES = ("load-open", "replace", "remove")
-
-
-def fs_key(site, cls):
-    return f"C27:fs-error:{site}:{cls}" if site in PER_CLASS_SITES else f"C27:fs-error:{site}"
-
-
 def site_of(exc, bc_file):
     """which cache file operation an exception that left get_template came from (from the traceback)"""
     import linecache
@@ -738,7 +732,20 @@ def site_of(exc, bc_file):
     return site
 
 
+OBSTACLE_FAULTS = {
+    # obstacle -> the OSErrors the operating system answers with, in the order the cache meets them
+    "directory-at-entry-path": [("load-open", "IsADirectoryError"), ("replace", "IsADirectoryError")],
+    "dangling-symlink-at-entry-path": [("load-open", "FileNotFoundError")],
+    "symlink-loop-at-entry-path": [("load-open", "OSError")],
+    "cache-directory-missing": [("load-open", "FileNotFoundError"), ("create", "FileNotFoundError")],
+    "cache-directory-is-a-file": [("load-open", "NotADirectoryError")],
+    "read-only-cache-directory": [("load-open", "FileNotFoundError"), ("create", "PermissionError")],
+    "unreadable-entry": [("load-open", "PermissionError")],
+}
+
+
 def run_fs_obstacles(ctx, res, jinja2, root, stats, ref, src_old, src_new, seen):
+    import builtins
     bc = jinja2.bccache
     # real obstacles, public API only
     is_root = hasattr(os, "geteuid") and os.geteuid() == 0
@@ -791,19 +798,50 @@ def run_fs_obstacles(ctx, res, jinja2, root, stats, ref, src_old, src_new, seen)
                 if undo:
                     undo()
             seen.add(("obstacle", ob))
-            ob_out[ob] = "ok" if all(r[3] for r in results) else str([r[:3] for r in results if not r[3]])
-            for step, cls, site, ok in results:
-                if ok:
-                    continue
-                replay = {"layer": "fs-obstacle", "obstacle": ob, "step": step}
-                if cls is None:
-                    res.violate(f"C27:fs-obstacle:{ob}:wrong-output", f"with {ob}, the {step} does not render the current source", replay)
-                elif issubclass(getattr(__builtins__, cls, Exception) if not isinstance(__builtins__, dict) else __builtins__.get(cls, Exception), OSError):
-                    res.violate(fs_key(site, cls),
-                                f"get_template raises {cls} (from the cache's {site}) on the {step} when there is a {ob.replace('-', ' ')} "
-                                f"(public API only); a cache problem must be a miss and the template render from source", replay)
+            # the transcription's answer: the first of the file-system errors this obstacle produces that the handlers read
+            # from the source let through
+            expect = None
+            for site, cls in OBSTACLE_FAULTS[ob]:
+                m = [k.__name__ for k in getattr(builtins, cls).__mro__ if k is not object]
+                if site == "load-open":
+                    prop = canon(core.driver_batch([[Atom("bc-open-fault")] + m])[0][1])[0] == "raises"
                 else:
-                    res.violate(f"C27:fs-obstacle:{ob}:{cls}", f"with {ob}, the {step} raises {cls}", replay)
+                    f = {"create": [Atom("create")] + m, "replace": [Atom("replace")] + m}[site]
+                    prop = canon(core.driver_batch([[Atom("bc-fault"), f, "e", "R", [], [[2]]]])[0][1][2])[0] == "raise"
+                if prop:
+                    expect = (cls, {"create": "tmp-create"}.get(site, site))
+                    break
+            got = [(r[1], r[2]) if r[1] else ("renders" if r[3] else "renders something else") for r in results]
+            want = [expect if expect else "renders"] * len(results)
+            ob_out[ob] = {"real": [list(g) if isinstance(g, tuple) else g for g in got],
+                          "model": list(expect) if expect else "miss, renders the current source"}
+            if got != want:
+                stats.setdefault("fs_fault_drift", []).append({"obstacle": ob, "real": ob_out[ob]["real"], "model": ob_out[ob]["model"]})
+                res.violate(f"C27:fs-fault:model-drift:obstacle:{ob}",
+                            f"with a {ob.replace('-', ' ')} (public API only) get_template gives {ob_out[ob]['real']}; the model over the "
+                            f"handlers read from bccache.py says: {ob_out[ob]['model']}",
+                            {"layer": "fs-obstacle", "obstacle": ob}, no_input=True)
+            # the property: once the obstacle is gone, the next load renders the current source
+            try:
+                if ob in ("directory-at-entry-path",):
+                    os.rmdir(entry)
+                elif ob.endswith("symlink-at-entry-path") or ob == "symlink-loop-at-entry-path" or ob == "unreadable-entry":
+                    os.unlink(entry)
+                elif ob == "cache-directory-missing":
+                    os.mkdir(cdir)
+                elif ob == "cache-directory-is-a-file":
+                    os.unlink(cdir)
+                    os.mkdir(cdir)
+                later = mkenv().get_template(NAME).render(x="<", items=[1])
+                again = mkenv().get_template(NAME).render(x="<", items=[1])
+                ok = later == ref(src_new) and again == ref(src_new)
+                why = f"renders {later!r} / {again!r}"
+            except BaseException as e:  # noqa
+                ok, why = False, f"raises {type(e).__name__}"
+            if not ok:
+                res.violate(f"C27:fs-fault:later-load:obstacle:{ob}",
+                            f"after the {ob.replace('-', ' ')} was removed, get_template {why}; expected {ref(src_new)!r}",
+                            {"layer": "fs-obstacle", "obstacle": ob})
         finally:
             shutil.rmtree(d, ignore_errors=True)
     stats["fs_obstacles"] = ob_out
@@ -841,6 +879,8 @@ def run_fs_faults(ctx, res, jinja2, root, stats):
             f = {"create": [Atom("create")] + m, "write": [Atom("write"), arg] + m, "close": [Atom("write"), n_writes] + m,
                  "replace": [Atom("replace")] + m}[site]
             reqs.append([Atom("bc-fault"), f, "e", "R", [], [[2 + j] for j in range(n_writes)]])
+        elif site == "remove":      # reached through a rename that fails with OSError(EXDEV)
+            reqs.append([Atom("bc-fault"), [Atom("replace")] + mro(OSError(errno.EXDEV, "x")), "e", "R", [], [[2 + j] for j in range(n_writes)]])
         else:
             reqs.append([Atom("ping"), 1])
     reps = core.driver_batch(reqs)
@@ -888,42 +928,46 @@ def run_fs_faults(ctx, res, jinja2, root, stats):
         finally:
             shutil.rmtree(d, ignore_errors=True)
     judged = [o for o in observed if o[6]]
-    vreps = core.driver_batch([[Atom("bc-fs-verdict"), "OSError" in o[4], o[7] is not None, o[8] == ref(src_new)] for o in judged])
     dist = {}
-    for o, vrep in zip(judged, vreps):
+    drift = stats.setdefault("fs_fault_drift", [])
+    for o in judged:
         prior, site, arg, label, m, rep, _, raised, out, after_raised, after_out, leftovers = o
         sname = site_name.get(site, site)
-        verdict = str(vrep[1])
         seen.add((prior, site, arg, label))
-        # the model's expectation
+        # what the transcription (Lean model over the handler table read from bccache.py) says happens today at this site
+        model_tmp_left = False
         if site == "load-open":
             model_prop = canon(rep[1])[0] == "raises"
         elif site in ("create", "write", "close", "replace"):
             model_prop = canon(rep[1][2])[0] == "raise"
+            model_tmp_left = any(n == str(rep[1][1]) for n, _b in canon(rep[1][0]))
         elif site == "load-read":
             model_prop = True                       # no handler around f.read / the decoders' reads catches an OSError
         else:
-            model_prop = "OSError" not in m         # remove_silent: except OSError: pass (shape checked by the translator)
-        dist[f"{sname}/{'raises' if raised else 'renders'}/{verdict}"] = dist.get(f"{sname}/{'raises' if raised else 'renders'}/{verdict}", 0) + 1
+            # remove_silent: except OSError: pass (shape checked by the translator); the failed rename that led here
+            # propagates or not as the model says
+            model_prop = "OSError" not in m or canon(rep[1][2])[0] == "raise"
+            model_tmp_left = True                   # the removal itself failed
+        stats.setdefault("_fs_real", {})[(sname, m[0])] = raised[0] if raised else "miss"
+        k = f"{sname}/{'propagates' if raised else 'miss'}"
+        dist[k] = dist.get(k, 0) + 1
         replay = {"layer": "fs-fault", "prior": prior, "site": site, "arg": arg, "exception": label}
-        cls = m[0]
-        if verdict == "violated":
-            res.violate(fs_key(sname, cls),
-                        f"get_template raises {raised[0] if raised else None} / renders {out!r}: {label} injected at the bytecode "
-                        f"cache's {sname}{'' if site != 'write' else f' (write #{arg})'} while loading a template whose entry is {prior}; "
-                        f"a cache problem must be a miss: expected the rendering of the current source {ref(src_new)!r}", replay)
-        if (raised is not None) != model_prop:
-            res.violate(f"C27:fs-error:model-mismatch:{sname}",
-                        f"{label} at {sname}: get_template {'raises ' + raised[0] if raised else 'returns'}, the model (handlers read "
-                        f"from the source) says it {'propagates' if model_prop else 'is swallowed'}", replay,
-                        no_input=(verdict != "violated"))
-        if after_raised is not None or after_out != ref(src_new):
-            res.violate(f"C27:fs-error:after:{sname}",
-                        f"after {label} at {sname} (prior entry {prior}) a later fault-free get_template "
-                        f"{'raises ' + after_raised[0] if after_raised else 'renders ' + repr(after_out)}; expected {ref(src_new)!r}", replay)
-        if leftovers and site != "remove":
-            res.violate(f"C27:fs-error:leftover-tmp:{sname}", f"{label} at {sname} leaves {leftovers} in the cache directory", replay,
+        # (i) transcription: real behaviour at the faulty load = the model's; a difference is drift, not a property violation
+        if (raised is not None) != model_prop or (raised is None and out != ref(src_new)):
+            drift.append({"site": sname, "exception": label, "prior": prior, "real": raised[0] if raised else f"renders {out!r}",
+                          "model": "propagates" if model_prop else "miss, renders the current source"})
+            res.violate(f"C27:fs-fault:model-drift:{sname}",
+                        f"{label} at the cache's {sname} (entry {prior}): get_template {'raises ' + raised[0] if raised else 'returns, rendering ' + repr(out)}; "
+                        f"the model over the handlers read from bccache.py says it {'propagates' if model_prop else 'is a miss'}", replay,
                         no_input=True)
+        # (ii) the property: whatever the fault did, the NEXT fault-free load sees a miss or the current entry
+        if after_raised is not None or after_out != ref(src_new):
+            res.violate(f"C27:fs-fault:later-load:{sname}",
+                        f"after {label} at the cache's {sname} (prior entry {prior}) a later, fault-free get_template "
+                        f"{'raises ' + after_raised[0] if after_raised else 'renders ' + repr(after_out)}; expected {ref(src_new)!r}", replay)
+        if bool(leftovers) and not model_tmp_left:
+            res.violate(f"C27:fs-fault:leftover-tmp:{sname}",
+                        f"{label} at the cache's {sname} leaves {leftovers} in the cache directory; the model removes the temporary", replay)
     stats["fs_fault_cases"] = len(cases)
     stats["fs_fault_reached"] = len(judged)
     stats["fs_fault_outcomes"] = dict(sorted(dist.items()))
@@ -955,7 +999,7 @@ def run_fs_faults(ctx, res, jinja2, root, stats):
             seen.add(("clear-remove", label))
             is_os = isinstance(make(), OSError)
             if hit and (exc is not None) == is_os:
-                res.violate(f"C27:fs-error:clear-remove:{type(make()).__name__}",
+                res.violate("C27:fs-fault:model-drift:clear-remove",
                             f"FileSystemBytecodeCache.clear() {'raises' if exc else 'swallows'} {label} from os.remove", {"layer": "fs-fault",
                             "site": "clear-remove", "exception": label}, no_input=True)
             try:
@@ -963,7 +1007,7 @@ def run_fs_faults(ctx, res, jinja2, root, stats):
             except BaseException:  # noqa
                 ok = False
             if not ok:
-                res.violate("C27:fs-error:after:clear-remove", f"after clear() met {label} a load no longer renders the current source",
+                res.violate("C27:fs-fault:later-load:clear-remove", f"after clear() met {label} a load no longer renders the current source",
                             {"layer": "fs-fault", "site": "clear-remove", "exception": label})
         finally:
             shutil.rmtree(d, ignore_errors=True)
@@ -1423,6 +1467,45 @@ def check_tables(res, jinja2):
             "tmp_well_formed": rep[5], "key_inputs": rep[6], "checksum_inputs": rep[7]}
 
 
+def attach_changed_behaviour(ctx, res, stats):
+    """the proofs that pin today's handlers no longer check (or the translator refused): name, inside the tie violation's
+    replay, the first site/class whose behaviour changed against those pinned facts, with what the real code does now -
+    as 'behaviour that changed', not as a failing input of the property"""
+    known_now = {k["key"] for k in core.load_known() if k.get("property") == ID and k.get("kind") == "known"}
+    if not (ctx.proof_broken or ctx.tie_broken) or any(not v.no_input and v.key not in known_now for v in res.violations):
+        return
+    real = stats.get("_fs_real", {})
+    changed = []
+    try:
+        esc = canon(core.driver_batch([[Atom("bc-escapes")]])[0][1])
+        for cls in esc[0]:
+            item = {"site": "os.replace in FileSystemBytecodeCache.dump_bytecode", "exception": cls,
+                    "pinned by": "replace_oserror_is_miss / no_replace_escapes / fs_fault_safe",
+                    "before": "swallowed: get_template returns, old entry kept, temporary removed",
+                    "model now": "the temporary is removed and the exception leaves dump_bytecode",
+                    "real now": f"get_template: {real.get(('replace', cls), 'not observed')}"}
+            if cls == "IsADirectoryError":
+                item["public API replay"] = ("os.mkdir(join(cache.directory, cache.pattern % cache.get_cache_key(name, filename))); "
+                                             "env.get_template(name): " + str((stats.get("fs_obstacles") or {}).get("directory-at-entry-path")))
+            changed.append(item)
+        for cls in ("FileNotFoundError", "IsADirectoryError", "PermissionError"):
+            if cls in esc[1]:
+                changed.append({"site": "open in FileSystemBytecodeCache.load_bytecode", "exception": cls,
+                                "pinned by": "open_obstacles_are_misses", "before": "a cache miss",
+                                "model now": "leaves get_template", "real now": f"get_template: {real.get(('load-open', cls), 'not observed')}"})
+    except Exception as e:  # noqa
+        changed.append({"error": f"finder failed: {e}"})
+    changed += [{"drift": d} for d in stats.get("fs_fault_drift", [])[:5]]
+    what = "; ".join([f"theorems of {m} no longer check over the regenerated model" for m in ctx.proof_broken] + list(ctx.tie_broken))
+    if changed:
+        first = next((c for c in changed if "public API replay" in c), changed[0])
+        what += (f"; behaviour that changed (not a failing input of the property): {first.get('site')} with {first.get('exception')} - "
+                 f"before: {first.get('before')}; now: {first.get('real now')}"
+                 + (f"; reachable with the public API: {first['public API replay']}" if "public API replay" in first else ""))
+    res.violate("C27:tie", what, {"proof_broken": ctx.proof_broken, "tie_broken": ctx.tie_broken, "gen_changed": ctx.gen_changed,
+                                  "behaviour_that_changed": changed, "notes": res.notes[-3:]}, no_input=True)
+
+
 def run(ctx, res):
     jinja2 = core.import_jinja()
     import jinja2.bccache  # noqa
@@ -1446,6 +1529,8 @@ def run(ctx, res):
         stats["section_seconds"] = [round(b - a, 1) for a, b in zip(t, t[1:])]
     finally:
         shutil.rmtree(root, ignore_errors=True)
+    attach_changed_behaviour(ctx, res, stats)
+    stats.pop("_fs_real", None)
     total = stats["unit_cases"] + stats.get("write_path_cases", 0) + stats["histories"] + len(s4) + stats["checksum_pairs"] + stats["fs_fault_reached"]
     res.coverage.update({
         "evaluations": total,
